@@ -1,4 +1,4 @@
-From Tetl Require Import Lib.Base C08.Model C08.Spec C08.ModelExt C08.SpecExt C08.ModelTraits C08.SpecTraits.
+From Tetl Require Import Lib.Base C08.Model C08.Spec C08.ModelExt C08.SpecExt C08.ModelTraits C08.SpecTraits C08.ModelBig C08.SpecBig C08.SpecBigFind.
 Require Extraction.
 Require Import ExtrOcamlBasic.
 Extraction Language OCaml.
@@ -30,4 +30,12 @@ Extraction "C08_model.ml" wire_anchor
   (* char_traits members as operations (ModelTraits.v / SpecTraits.v) *)
   tr_move_m tr_copy_m tr_fill_m traits_compare traits_find tr_eq_m tr_lt_m tr_assign_m
   eof_m to_int_type_m to_char_type_m eq_int_type_m not_eof_m
-  move_s fill_s tr_compare_s tr_find_s tr_length_s eof_s to_int_type_s to_char_type_s char_lt.
+  move_s fill_s tr_compare_s tr_find_s tr_length_s eof_s to_int_type_s to_char_type_s char_lt
+  (* huge views on a sparse allocation (ModelBig.v; equal to the functions above on the expanded view: ProofsBig.v) *)
+  mksbuf mkbview of_view rdb chars_b substr_b remove_prefix_b remove_suffix_b copy_b
+  compare_b compare3_b compare5_b compare_p_b compare3_p_b compare4_p_b rel6_b rel_pl_b rel_pr_b
+  starts_with_b ends_with_b starts_with_p_b ends_with_p_b index_b back_b
+  (* closed forms of the specification on sparse strings (SpecBig.v; equal to Spec.v's functions: ProofsBigSpec.v) *)
+  bget chars_sp compare_sp compare3_sp compare5_sp rel_sp starts_with_sp ends_with_sp
+  substr_sp remove_prefix_sp remove_suffix_sp sp_of_list
+  find_sp rfind_sp find_first_of_sp find_first_not_of_sp find_last_of_sp find_last_not_of_sp.
